@@ -15,7 +15,7 @@ import time
 
 from .engine import Undecided, VERIF, CACHE, REPO
 
-TARGET = os.path.join(CACHE, 'kani-target')
+TARGET = os.path.join(CACHE, 'kani-target' if REPO == '/repo' else 'kani-target-scratch')
 
 
 def run(harnesses, jobs=8, timeout=3000, extra_env=None):
@@ -119,6 +119,8 @@ def part(harness_specs, prop, label_of=None):
             return res
         results, cmd, wall, out = run(names, timeout=max(h.get('timeout', 1500) for h in specs) + 300)
         res['cmds'].append(cmd)
+        res['trusted'] += ['Kani 0.68.0 (kani-compiler MIR -> goto translation, its models of std) + CBMC 6.11 + CaDiCaL',
+                           'Kani harness sources under /verif/kani (spec twins are executable Rust written from the RFCs)']
         for h in specs:
             r = results[h['name']]
             st = r['status']
